@@ -62,6 +62,10 @@ def run(ctx, R, tier):
     shared_rate_single(F, R)
     rate_bounds(F, R)
     cursors(F, R)
+    # 'every effect processes with the sample rate in force': what an effect is handed is the slice of this chunk (its length
+    # times dt is the time that passed), never a longer stored buffer - the C02 buffer-size rules
+    from .c02 import ibs as buffer_slices
+    buffer_slices(F, R)
     # 'keep their real-time speed' at every rate and buffer size: elapsed time is accumulated in double precision (in single
     # precision the per-step rounding depends on how small the step is, i.e. on the device rate)
     from .c06 import accumulators
@@ -327,6 +331,9 @@ def repr_json(x):
     return json.dumps(x)
 
 
+RATE_STATEFUL = {'Delay': 'the delay line is delay_time x sample rate frames long', 'Reverb': 'the comb / all-pass lines are scaled from their 44.1 kHz lengths'}
+
+
 def pair(F, R):
     impls = [im for im in F.impls if im['trait'] == 'effect::Effect']
     n = 0
@@ -345,6 +352,12 @@ def pair(F, R):
         if not uses:
             R.ok('B.C16.pair', ty, detail='init ignores the sample rate')
             continue
+        # only the effects that need rate-sized buffers keep rate-dependent state; everything else derives its timing from the
+        # `dt` it is handed on every call and is therefore right at any rate, also on a track that was still in the hand-over
+        # queue when the rate changed (the recorded finding B.C16.inflight: such a track's effects are never told the new rate)
+        R.check(ty.split('::')[-1] in RATE_STATEFUL, 'B.C16.pair', ty + '|rate-state',
+                '%s keeps state derived from the sample rate (%s) although it is handed `dt` on every call: on a track created around a '
+                'rate change it runs with the old rate (B.C16.inflight)' % (ty, sorted(fields) or sorted(callees)), detail={'rate_stateful': sorted(RATE_STATEFUL)}, where=ib.file, nontrivial=False)
         cb = F.body(items['on_change_sample_rate']) if 'on_change_sample_rate' in items else None
         if cb is None:
             R.bad('B.C16.pair', ty, '%s::init depends on the sample rate (fields %s, callees %s) but the effect does not override '
